@@ -790,7 +790,14 @@ func (w *World) computeModsets() {
 	for changed := true; changed; {
 		changed = false
 		for _, api := range apiFns {
-			changed = union(user, w.modsets[api]) || changed
+			// a storage read that fails inside the caller's own callback is the callback's to report:
+			// the read-failure flag tracks the reads of the call under verification
+			for h := range w.modsets[api] {
+				if h != "G$rdfailed" && !user[h] {
+					user[h] = true
+					changed = true
+				}
+			}
 		}
 		for _, f := range w.FnAll {
 			base, full := w.baseMods[f], w.modsets[f]
@@ -848,7 +855,9 @@ func (w *World) CallSiteMods(f, g *ssa.Function, args []ssa.Value) map[string]bo
 		for _, n := range reentryAPI {
 			if a, ok := w.Fns[n]; ok {
 				for h := range w.modsets[a] {
-					out[h] = true
+					if h != "G$rdfailed" {
+						out[h] = true
+					}
 				}
 			}
 		}
